@@ -104,7 +104,8 @@ def decDigits (n : Nat) : List Char := (digitsLE 10 n).reverse.map digitChar
 def natChars (n : Nat) : List Char :=
   let d := decDigits n
   let h := '0' :: 'x' :: hexDigits n
-  if h.length < d.length then h else d
+  -- `repr` raises beyond the interpreter's 4300-digit conversion limit: the hexadecimal form is used then
+  if d.length > 4300 then h else if h.length < d.length then h else d
 
 def intText (v : Int) : String :=
   String.ofList (if v < 0 then '-' :: natChars v.natAbs else natChars v.natAbs)
